@@ -274,6 +274,27 @@ def _loop_facts(ctx, f, g, loop) -> set[tuple[str, str]]:
             if v == 'self.clients.pop(conn)' and isinstance(tgt, ast.Name):
                 # tasks of a just-removed client: I1 on the old set
                 out.add(('self.clients[conn]', tgt.id))
+        # list collected by a comprehension over self.tasks.items() (the
+        # engine reads the equivalent append loop as this comprehension)
+        for d in defs:
+            v = d.value
+            if not (isinstance(v, ast.ListComp) and len(v.generators) == 1
+                    and norm(v.generators[0].iter) == 'self.tasks.items()'
+                    and isinstance(v.generators[0].target, ast.Tuple)
+                    and isinstance(tgt, ast.Tuple)
+                    and isinstance(v.elt, ast.Tuple)
+                    and len(v.elt.elts) == len(tgt.elts)):
+                continue
+            gt = v.generators[0].target
+            kname = norm(gt.elts[0])
+            vt = gt.elts[1]
+            for pos, e in enumerate(v.elt.elts):
+                if norm(e) == kname:
+                    out.add(('self.tasks', norm(tgt.elts[pos])))
+                elif isinstance(vt, ast.Tuple) and norm(e) == norm(
+                        vt.elts[0]):
+                    out.add(('self.mailbox_to_task_dict',
+                             norm(tgt.elts[pos])))
         # list filled only inside a loop over self.tasks.items()
         apps = [n for n in ast.walk(f.node) if isinstance(n, ast.Call)
                 and norm(n.func) == f'{it.id}.append']
